@@ -21,7 +21,7 @@ LEAN_MODULES = ["NiftyVerif.Core.Proto", "NiftyVerif.Props.C08"]
 DRIVER = "Driver/C08.lean"
 OBLIGATIONS = ["NiftyVerif.C08." + t for t in (
     "rg_volume", "uniform_volume_sum", "rg_dual_distances", "hp_volume", "rg_klen_1d_unique", "lm_l_of_index", "lm_size",
-    "lm_all_l_present", "pindex_partition", "power_dvol_sum", "power_klen_mean", "natural_binning_nonempty",
+    "lm_all_l_present", "pindex_partition", "power_dvol_sum", "power_klen_mean", "natural_binning_nonempty", "linear_binbounds_sorted", "log_binbounds_sorted", "dof_volume_partition",
     "intern_canonical", "pickle_identity", "multidomain_key_order_irrelevant")]
 RULE = ("RGSpace: 1-3 D, shapes 1..9 per axis, distances None / dyadic / non-dyadic, position and harmonic; LMSpace: all "
         "lmax<=6 (quick 5), mmax<=lmax; GLSpace/HPSpace small; DOFSpace; PowerSpace over every harmonic RGSpace/LMSpace with natural, "
@@ -46,8 +46,9 @@ def fs(x):
 
 
 def close(a, b, rel=1e-12):
-    a, b = float(a), float(b)
-    return abs(a - b) <= rel * max(1.0, abs(a), abs(b))
+    """purely relative (domains live on every physical scale: distances 1e-9 .. 1e9); exact rationals are compared exactly"""
+    fa, fb = Fraction(a) if not isinstance(a, Fraction) else a, Fraction(b) if not isinstance(b, Fraction) else b
+    return abs(fa - fb) <= Fraction(rel) * max(abs(fa), abs(fb))
 
 
 def build_domain(spec):
@@ -74,8 +75,19 @@ def build_domain(spec):
 def gen_rg(rng, harmonic=None):
     nd = rng.choice([1, 1, 2, 2, 3])
     shape = [rng.randrange(1, 10) if nd < 3 else rng.randrange(1, 6) for _ in range(nd)]
-    mode = rng.choice(["none", "dyadic", "float", "scalar"])
-    if mode == "none":
+    mode = rng.choice(["none", "dyadic", "float", "scalar", "wide", "wide", "near", "near"])
+    if mode == "wide":
+        # physical units: every axis on its own scale, 1e-9 .. 1e9
+        d = [float(f"{rng.randrange(100, 1000)}e{rng.randrange(-11, 8)}") for _ in range(nd)]
+        if rng.random() < 0.4:                       # all axes on one (extreme) scale
+            e = rng.choice([-11, -10, -9, 6, 7])
+            d = [float(f"{rng.randrange(100, 1000)}e{e}") for _ in range(nd)]
+    elif mode == "near":
+        # nearly, but not exactly, equal distances (inside / outside every float tolerance a shortcut might use)
+        d0 = rng.choice([1.0, 0.5, 3.0, 2e-9, 7e6, 0.3])
+        d = [d0] + [d0 * (1.0 + rng.choice([-1, 1]) * rng.choice([1e-3, 4e-6, 1e-6, 1e-8, 1e-10])) for _ in range(nd - 1)]
+        rng.shuffle(d)
+    elif mode == "none":
         d = None
     elif mode == "dyadic":
         d = [rng.choice([0.25, 0.5, 1.0, 2.0, 1.5, 0.125]) for _ in range(nd)]
@@ -110,9 +122,34 @@ def check_rg(ctx, spec, reqs, posts):
         def post2(m, sp=sp, spec=spec):
             k = sp.get_k_length_array().asnumpy().reshape(-1)
             ctx.case(dict(op="ksq", spec=spec), len(spec["shape"]) > 1)
-            bad = [i for i, (a, b) in enumerate(zip(k, m)) if not close(a * a, Fraction(b))]
+            bad = [i for i, (a, b) in enumerate(zip(k, m)) if not close(Fraction(float(a)) ** 2, Fraction(b), 1e-11)]
             if bad or len(k) != len(m):
                 ctx.disagree(dict(op="ksq", spec=spec), k.tolist()[:20], m[:20], "C08 RGSpace k-length array vs exact k^2 (class T)")
+                return
+            # get_unique_k_lengths vs the distinct values of the exact table (class F): one representative per cluster of
+            # k-lengths closer than the code's documented merging tolerance (1e-12 of the largest); grids with a gap inside the
+            # band [1e-13, 1e-10] * kmax are not compared (branch decision near its threshold)
+            import math
+            ex = sorted(set(Fraction(b) for b in m))
+            kx = [math.sqrt(e) if e.denominator == 1 and e.numerator < 2 ** 52 else float(e) ** 0.5 for e in ex]
+            kmax = kx[-1]
+            gaps = [b - a for a, b in zip(kx, kx[1:])]
+            if any(1e-13 * kmax < g < 1e-10 * kmax for g in gaps):
+                ctx.skipped_near_threshold += 1
+                return
+            clusters = [[kx[0]]]
+            for g, v in zip(gaps, kx[1:]):
+                if g <= 1e-13 * kmax:
+                    clusters[-1].append(v)
+                else:
+                    clusters.append([v])
+            u = [float(x) for x in sp.get_unique_k_lengths()]
+            ok = len(u) == len(clusters) and all(c[0] - 1e-10 * kmax <= x <= c[-1] + 1e-10 * kmax for x, c in zip(u, clusters))
+            ctx.stat("unique-k:%s" % ("1D" if len(spec["shape"]) == 1 else "nD"))
+            if not ok:
+                ctx.disagree(dict(op="unique-k", spec=spec), dict(n=len(u), first=u[:8]),
+                             dict(n=len(clusters), first=[c[0] for c in clusters[:8]]),
+                             "C08 get_unique_k_lengths vs the distinct values of the exact k-length table (class F)")
         posts.append(post2)
 
 
@@ -140,7 +177,7 @@ def oracle_geometry(spec):
     if getattr(sp, "harmonic", False) and spec["kind"] in ("rg", "lm"):
         k = sp.get_k_length_array().asnumpy().reshape(-1)
         u = np.asarray(sp.get_unique_k_lengths(), dtype=np.float64)
-        tol = 1e-11 * max(1.0, float(k.max()))
+        tol = 1e-9 * float(k.max())           # relative to the largest k-length: domains live on every physical scale
         if u.size == 0:
             return ("get_unique_k_lengths() is empty although the k-length table is not", dict(sig, what="unique-empty"))
         if not np.all(np.diff(u) > 0):
@@ -201,6 +238,17 @@ def check_power(ctx, pspec, reqs, posts):
         posts.append(postm)
     else:
         bounds = np.asarray(bb, dtype=np.float64)
+        if pspec.get("how", "").startswith("linear") and len(bounds) >= 2:
+            # np.linspace(first, last, nbin-1) vs the exact linearBounds of the model (class T; ends exact)
+            reqs.append(dict(op="linspace", nbin=len(bounds) + 1, first=fs(bounds[0]), last=fs(bounds[-1])))
+
+            def postl(m, bounds=bounds, pspec=pspec):
+                ctx.case(dict(op="linspace", spec=pspec), len(bounds) > 2)
+                ok = len(m) == len(bounds) and all(close(a, Fraction(b), 1e-13) for a, b in zip(bounds, m)) and \
+                    Fraction(float(bounds[0])) == Fraction(m[0]) and Fraction(float(bounds[-1])) == Fraction(m[-1])
+                if not ok:
+                    ctx.disagree(dict(op="linspace", spec=pspec), bounds.tolist(), m, "C08 linear_binbounds vs exact linspace (class T)")
+            posts.append(postl)
     try:
         ps = ift.PowerSpace(hp, None if bb is None else list(bb))
         impl = dict(pindex=np.asarray(ps.pindex).reshape(-1).tolist(), rho=None, dvol=list(map(float, ps.dvol)),
@@ -419,7 +467,14 @@ def run(ctx):
     # --- regular grids
     rgs = [dict(kind="rg", shape=[8], distances=None, harmonic=True), dict(kind="rg", shape=[4, 6], distances=[0.5, 0.25], harmonic=True),
            dict(kind="rg", shape=[3, 5], distances=[0.7, 0.3], harmonic=True), dict(kind="rg", shape=[3, 4, 5], distances=[1., 2., 0.5], harmonic=True),
-           dict(kind="rg", shape=[5], distances=0.3, harmonic=False), dict(kind="rg", shape=[1], distances=None, harmonic=True)]
+           dict(kind="rg", shape=[5], distances=0.3, harmonic=False), dict(kind="rg", shape=[1], distances=None, harmonic=True),
+           # anisotropic grids that are "equal" only under a float tolerance: nearly square pixels, physical units
+           dict(kind="rg", shape=[4, 6], distances=[1.0, 1.000004], harmonic=True),
+           dict(kind="rg", shape=[5, 5], distances=[0.3, 0.3 * (1 + 1e-8)], harmonic=True),
+           dict(kind="rg", shape=[3, 4, 5], distances=[2e-9, 3e-9, 2.5e-9], harmonic=True),
+           dict(kind="rg", shape=[16, 12], distances=[1 / (16 * 1e7), 1 / (12 * 3e7)], harmonic=True),
+           dict(kind="rg", shape=[6, 4], distances=[4e8, 4e8 * (1 - 1e-6)], harmonic=True),
+           dict(kind="rg", shape=[6, 4], distances=[1e7, 3e7], harmonic=False)]
     rgs = [c["spec"] for c in _corpus() if c.get("op") == "geometry" and c["spec"]["kind"] == "rg"] + rgs
     rgs += [gen_rg(rng) for _ in range(ctx.n(30, 400))]
     for spec in rgs:
